@@ -1164,4 +1164,260 @@ theorem conn_simultaneous {R : MergeOut} (h : simultaneous (connPre w r) (w + r)
 
 end conn
 
+
+/-! ### the merged design of the Connect family -/
+
+section mergeOut2
+variable (D : Design) (nus : Nat) (cc allSim : List BodyId) (groups : List (List BodyId))
+
+theorem post_dropped :
+    (mergeOut D nus cc allSim groups).dropped =
+      (List.range D.bodies.length).filter fun b =>
+        D.transactions.contains b && allSim.contains b && !(norm D.bodies.length groups.flatten).contains b := rfl
+
+/-- a body of the merged design that is not a transaction is in its `methods` list -/
+theorem post_mem_methods {b : Nat} (hb : b < (mergeOut D nus cc allSim groups).D.bodies.length)
+    (ht : (mergeOut D nus cc allSim groups).D.isTrans b = false) :
+    b ∈ (mergeOut D nus cc allSim groups).D.methods := by
+  have hm : (mergeOut D nus cc allSim groups).D.methods =
+      (List.range (mergeOut D nus cc allSim groups).D.bodies.length).filter fun b =>
+        !((mergeOut D nus cc allSim groups).D.bodies.getD b default).isTrans := rfl
+  rw [hm, List.mem_filter]
+  refine ⟨List.mem_range.2 hb, ?_⟩
+  unfold Design.isTrans Design.body? at ht
+  rw [List.getElem?_eq_getElem hb] at ht
+  simp only at ht
+  simp [List.getD, List.getElem?_eq_getElem hb, ht]
+
+theorem mem_linkSites_user {P : Design} {enDeps : List (SiteId × List BodyId)} {src : Nat} {c : Call}
+    (hsrc : src ∈ P.methodsAndTransactions) (hc : c ∈ P.calls src) (hs : c.site < nus)
+    (hp : c.path.path.length = (P.defPath src).path.length + 1) : c.site ∈ linkSites P enDeps nus := by
+  unfold linkSites
+  apply List.mem_append_left
+  simp only [List.mem_filterMap]
+  refine ⟨(src, c), ?_, by simp [hs, hp]⟩
+  simp only [Design.allSites, List.mem_flatMap, List.mem_map]
+  exact ⟨src, hsrc, c, hc, rfl⟩
+
+theorem mem_linkSites_merged {P : Design} {enDeps : List (SiteId × List BodyId)} {s : Nat}
+    (h : (s, []) ∈ enDeps) : s ∈ linkSites P enDeps nus := by
+  unfold linkSites
+  apply List.mem_append_right
+  simp only [List.mem_filterMap]
+  exact ⟨(s, []), h, by simp⟩
+
+end mergeOut2
+
+section connPost
+variable (w r : Nat) (groups : List (List Nat))
+
+def connOut : MergeOut :=
+  mergeOut (connPre w r) (w + r) [] (allSimultaneous (connPre w r) (methodMap (connPre w r))) groups
+
+def cMod : Int := maxModule (connPre w r) + 1
+def cOff (k : Nat) : Nat := (offsets groups (w + r)).getD k 0
+def cC0 (k a : Nat) : Call := { callee := a, path := ⟨cMod w r, [⟨0, k⟩, ⟨0, 0⟩]⟩, site := cOff w r groups k + 0 }
+def cC1 (k b : Nat) : Call := { callee := b, path := ⟨cMod w r, [⟨0, k⟩, ⟨0, 1⟩]⟩, site := cOff w r groups k + 1 }
+def wCall (a : Nat) : Call := ⟨w + r, ⟨0, [⟨0, a⟩]⟩, a⟩
+def rCall (c : Nat) : Call := ⟨w + r + 1, ⟨0, [⟨0, w + c⟩]⟩, w + c⟩
+
+theorem connOut_length : (connOut w r groups).D.bodies.length = w + r + 2 + groups.length := by
+  unfold connOut; rw [post_length, conn_length]
+
+theorem connOut_dropped (hw : 0 < w) (hr : 0 < r) (hgr : ∀ g, g ∈ groups ↔ IsConnPair w r g) :
+    (connOut w r groups).dropped = [] := by
+  unfold connOut
+  rw [post_dropped, conn_length]
+  apply List.filter_eq_nil_iff.2
+  intro (b : Nat) hb
+  have hb' : b < w + r + 2 := List.mem_range.1 hb
+  simp only [Bool.and_eq_true, List.contains_eq_mem, decide_eq_true_eq, Bool.not_eq_true', decide_eq_false_iff_not,
+    not_and, Decidable.not_not]
+  intro ht
+  have hbt : b < w + r := by simpa [connPre] using ht.1
+  apply mem_norm.2
+  refine ⟨hb', ?_⟩
+  simp only [List.mem_flatten]
+  rcases Nat.lt_or_ge b w with h | h
+  · exact ⟨[b, w + 0], (hgr _).2 ⟨b, 0, h, hr, rfl⟩, by simp⟩
+  · exact ⟨[0, w + (b - w)], (hgr _).2 ⟨0, b - w, hw, by omega, rfl⟩, by simp; omega⟩
+
+theorem connOut_body_old (hw : 0 < w) (hr : 0 < r) (hgr : ∀ g, g ∈ groups ↔ IsConnPair w r g) {b : Nat}
+    (hb : b < w + r + 2) :
+    (connOut w r groups).D.body? b =
+      some (oldBody (allSimultaneous (connPre w r) (methodMap (connPre w r))) [] b
+        ((connPre w r).bodies[b]'(by rw [conn_length]; exact hb))) := by
+  have hb' : b < (connPre w r).bodies.length := by rw [conn_length]; exact hb
+  have := post_body_old (connPre w r) (w + r) [] (allSimultaneous (connPre w r) (methodMap (connPre w r))) groups hb'
+  have hd := connOut_dropped w r groups hw hr hgr
+  unfold connOut at hd ⊢
+  rw [this, hd]
+
+theorem conn_bodies_get {b : Nat} (hb : b < w + r + 2) :
+    (connPre w r).body? b = some ((connPre w r).bodies[b]'(by rw [conn_length]; exact hb)) := by
+  unfold Design.body?
+  exact List.getElem?_eq_getElem _
+
+theorem connOut_calls_old (hw : 0 < w) (hr : 0 < r) (hgr : ∀ g, g ∈ groups ↔ IsConnPair w r g) {b : Nat}
+    (hb : b < w + r + 2) : (connOut w r groups).D.calls b = (connPre w r).calls b := by
+  unfold Design.calls
+  rw [connOut_body_old w r groups hw hr hgr hb, conn_bodies_get w r hb]
+  simp [oldBody]
+
+theorem connOut_defPath_old (hw : 0 < w) (hr : 0 < r) (hgr : ∀ g, g ∈ groups ↔ IsConnPair w r g) {b : Nat}
+    (hb : b < w + r + 2) : (connOut w r groups).D.defPath b = (connPre w r).defPath b := by
+  unfold Design.defPath
+  rw [connOut_body_old w r groups hw hr hgr hb, conn_bodies_get w r hb]
+  simp [oldBody]
+
+theorem connOut_isTrans_old (hw : 0 < w) (hr : 0 < r) (hgr : ∀ g, g ∈ groups ↔ IsConnPair w r g) {b : Nat}
+    (hb : b < w + r + 2) : (connOut w r groups).D.isTrans b = false := by
+  unfold Design.isTrans
+  rw [connOut_body_old w r groups hw hr hgr hb]
+  simp only [oldBody, Bool.and_eq_false_imp]
+  intro ht
+  rcases Nat.lt_or_ge b (w + r) with h | h
+  · have := (conn_mem_allSim w r).2 h
+    simp [this]
+  · exfalso
+    have hbody := conn_bodies_get w r hb
+    rcases Nat.eq_or_lt_of_le h with h' | h'
+    · subst h'
+      rw [conn_body_write] at hbody
+      have := Option.some.inj hbody
+      rw [← this] at ht; simp [connWrite] at ht
+    · have : b = w + r + 1 := by omega
+      subst this
+      rw [conn_body_read] at hbody
+      have := Option.some.inj hbody
+      rw [← this] at ht; simp [connRead] at ht
+
+theorem connOut_merged {k a c : Nat} (hk : k < groups.length) (hg : groups[k] = [a, w + c]) :
+    (connOut w r groups).D.calls (w + r + 2 + k) = [cC0 w r groups k a, cC1 w r groups k (w + c)] ∧
+    (connOut w r groups).D.isTrans (w + r + 2 + k) = true := by
+  have hl := conn_length w r
+  have hbody := post_body_merged (connPre w r) (w + r) []
+    (allSimultaneous (connPre w r) (methodMap (connPre w r))) groups hk
+  rw [hl] at hbody
+  have hoff : (offsets groups (w + r))[k]'(by rw [offsets_length]; exact hk) = cOff w r groups k := by
+    simp [cOff, List.getD, List.getElem?_eq_getElem (show k < (offsets groups (w + r)).length by rw [offsets_length]; exact hk)]
+  constructor
+  · unfold Design.calls connOut
+    rw [hbody, hg, hoff]
+    simp [mergedBody, cC0, cC1, cMod, hl]
+  · unfold Design.isTrans connOut
+    rw [hbody]
+    simp [mergedBody]
+
+theorem connOut_none {b : Nat} (hb : w + r + 2 + groups.length ≤ b) : (connOut w r groups).D.body? b = none := by
+  unfold connOut
+  apply post_body_none
+  rw [conn_length]; exact hb
+
+theorem connOut_enDeps {k a c : Nat} (hk : k < groups.length) (hg : groups[k] = [a, w + c]) :
+    (cOff w r groups k + 0, []) ∈ (connOut w r groups).enDeps ∧ (cOff w r groups k + 1, []) ∈ (connOut w r groups).enDeps := by
+  unfold connOut
+  rw [post_enDeps]
+  have hk' : k < (offsets groups (w + r)).length := by rw [offsets_length]; exact hk
+  have hz : (groups[k], (offsets groups (w + r))[k]) ∈ groups.zip (offsets groups (w + r)) := by
+    have hkz : k < (groups.zip (offsets groups (w + r))).length := by simp [offsets_length, hk]
+    have := List.getElem_mem hkz
+    simpa [List.getElem_zip] using this
+  have hoff : (offsets groups (w + r))[k] = cOff w r groups k := by
+    simp [cOff, List.getD, List.getElem?_eq_getElem hk']
+  simp only [List.mem_flatMap]
+  constructor
+  · refine ⟨_, hz, ?_⟩
+    rw [hg, hoff]; simp [enDepsOf]
+  · refine ⟨_, hz, ?_⟩
+    rw [hg, hoff]; simp [enDepsOf]
+
+
+open TxV.Core.Bridge in
+theorem connOut_shape (hw : 0 < w) (hr : 0 < r) (hgr : ∀ g, g ∈ groups ↔ IsConnPair w r g) :
+    Core.ShapeC13 (toAbs (connOut w r groups).D) (w + r) (w + r + 1)
+      (linkSites (connOut w r groups).D (connOut w r groups).enDeps (w + r)) := by
+  have hN : (toAbs (connOut w r groups).D).n = w + r + 2 + groups.length := by
+    rw [toAbs_n, connOut_length]
+  have hold : ∀ b, b < w + r + 2 → (toAbs (connOut w r groups).D).isTrans b = false := by
+    intro b hb; rw [toAbs_isTrans]; exact connOut_isTrans_old w r groups hw hr hgr hb
+  -- the calls of writers and readers are link sites
+  have hmeth : ∀ b, b < w + r + 2 → b ∈ (connOut w r groups).D.methodsAndTransactions := by
+    intro b hb
+    apply List.mem_append_left
+    exact post_mem_methods _ _ _ _ _ (by rw [← connOut, connOut_length]; omega)
+      (connOut_isTrans_old w r groups hw hr hgr hb)
+  have hwcall : ∀ a, a < w → wCall w r a ∈ (connOut w r groups).D.calls a ∧
+      (wCall w r a).site ∈ linkSites (connOut w r groups).D (connOut w r groups).enDeps (w + r) := by
+    intro a ha
+    have hc : wCall w r a ∈ (connOut w r groups).D.calls a := by
+      rw [connOut_calls_old w r groups hw hr hgr (by omega), conn_calls_writer w r ha]; simp [wCall]
+    have hs : (wCall w r a).site < w + r := by show a < w + r; omega
+    refine ⟨hc, mem_linkSites_user (w + r) (hmeth a (by omega)) hc hs ?_⟩
+    rw [connOut_defPath_old w r groups hw hr hgr (by omega)]
+    simp [wCall, Design.defPath, conn_body_writer w r ha, connWriter]
+  have hrcall : ∀ c, c < r → rCall w r c ∈ (connOut w r groups).D.calls (w + c) ∧
+      (rCall w r c).site ∈ linkSites (connOut w r groups).D (connOut w r groups).enDeps (w + r) := by
+    intro c hc'
+    have hc : rCall w r c ∈ (connOut w r groups).D.calls (w + c) := by
+      rw [connOut_calls_old w r groups hw hr hgr (by omega), conn_calls_reader w r hc']; simp [rCall]
+    have hs : (rCall w r c).site < w + r := by show w + c < w + r; omega
+    refine ⟨hc, mem_linkSites_user (w + r) (hmeth (w + c) (by omega)) hc hs ?_⟩
+    rw [connOut_defPath_old w r groups hw hr hgr (by omega)]
+    simp [rCall, Design.defPath, conn_body_reader w r hc', connReader]
+  -- every transaction of the merged design is a merged transaction of a (writer, reader) group
+  have htrans : ∀ g, (toAbs (connOut w r groups).D).isTrans g = true →
+      ∃ k a c, ∃ (hk : k < groups.length), a < w ∧ c < r ∧ groups[k] = [a, w + c] ∧ g = w + r + 2 + k := by
+    intro g hg
+    have hlt := (toAbs (connOut w r groups).D).isTrans_lt hg
+    rw [hN] at hlt
+    rcases Nat.lt_or_ge g (w + r + 2) with hb | hb
+    · rw [hold g hb] at hg; cases hg
+    · obtain ⟨k, rfl⟩ : ∃ k, g = w + r + 2 + k := ⟨g - (w + r + 2), by omega⟩
+      have hk : k < groups.length := by omega
+      obtain ⟨a, c, ha, hc, hgk⟩ := (hgr _).1 (List.getElem_mem hk)
+      exact ⟨k, a, c, hk, ha, hc, hgk, rfl⟩
+  refine ⟨⟨by rw [hN]; omega, hold _ (by omega)⟩, ⟨by rw [hN]; omega, hold _ (by omega)⟩, ?_, ?_⟩
+  · -- a transaction (reaching `write`) calls `read` through unconditional calls: merged call of the reader, reader's call
+    intro g hg _
+    obtain ⟨k, a, c, hk, ha, hc, hgk, rfl⟩ := htrans g hg
+    obtain ⟨mc, _⟩ := connOut_merged w r groups hk hgk
+    obtain ⟨_, e1⟩ := connOut_enDeps w r groups hk hgk
+    obtain ⟨rc, rl⟩ := hrcall c hc
+    refine ⟨[cvtCall (cC1 w r groups k (w + c)), cvtCall (rCall w r c)], ?_, ?_, ?_⟩
+    · refine .cons (by rw [toAbs_calls, mc]; simp) (.single ?_)
+      show cvtCall (rCall w r c) ∈ ((toAbs (connOut w r groups).D).body (w + c)).calls
+      rw [toAbs_calls]; exact List.mem_map.2 ⟨_, rc, rfl⟩
+    · simp [Core.target, cvtCall, rCall]
+    · intro x hx
+      simp only [List.mem_cons, List.not_mem_nil, or_false] at hx
+      rcases hx with rfl | rfl
+      · exact mem_linkSites_merged (w + r) e1
+      · exact rl
+  · intro g hg _
+    obtain ⟨k, a, c, hk, ha, hc, hgk, rfl⟩ := htrans g hg
+    obtain ⟨mc, _⟩ := connOut_merged w r groups hk hgk
+    obtain ⟨e0, _⟩ := connOut_enDeps w r groups hk hgk
+    obtain ⟨wc, wl⟩ := hwcall a ha
+    refine ⟨[cvtCall (cC0 w r groups k a), cvtCall (wCall w r a)], ?_, ?_, ?_⟩
+    · refine .cons (by rw [toAbs_calls, mc]; simp) (.single ?_)
+      show cvtCall (wCall w r a) ∈ ((toAbs (connOut w r groups).D).body a).calls
+      rw [toAbs_calls]; exact List.mem_map.2 ⟨_, wc, rfl⟩
+    · simp [Core.target, cvtCall, wCall]
+    · intro x hx
+      simp only [List.mem_cons, List.not_mem_nil, or_false] at hx
+      rcases hx with rfl | rfl
+      · exact mem_linkSites_merged (w + r) e0
+      · exact wl
+
+end connPost
+
+/-- **`simultaneous_shape_connect`**: for `w ≥ 1` writers and `r ≥ 1` readers of one `Connect`, every result
+of the executable model of `_simultaneous` has the shape the C13 theorems need for (`write`, `read`) -/
+theorem simultaneous_shape_connect (w r : Nat) (hw : 0 < w) (hr : 0 < r) {R : MergeOut}
+    (h : simultaneous (connPre w r) (w + r) = .ok R) :
+    Core.ShapeC13 (Core.Bridge.toAbs R.D) (w + r) (w + r + 1) (linkSites R.D R.enDeps (w + r)) := by
+  obtain ⟨groups, hgr, rfl⟩ := conn_simultaneous w r h
+  exact connOut_shape w r groups hw hr hgr
+
 end TxV.Simul
